@@ -794,11 +794,17 @@ func (w *_assemblerRepr) AssignInt(i int64) error {
 			}
 			// Short-cut to storing the repr int directly, akin to node.go's AssignInt.
 			if kindInt[kind] {
+				if val.OverflowInt(i) {
+					return fmt.Errorf("bindnode: integer %d does not fit in %s", i, val.Type())
+				}
 				val.SetInt(i)
 			} else if kindUint[kind] {
 				if i < 0 {
 					// TODO: write a test
 					return fmt.Errorf("bindnode: cannot assign negative integer to %s", w.val.Type())
+				}
+				if val.OverflowUint(uint64(i)) {
+					return fmt.Errorf("bindnode: integer %d does not fit in %s", i, val.Type())
 				}
 				val.SetUint(uint64(i))
 			} else {
